@@ -14,6 +14,7 @@
 //	c14.read_view           wasm/memory.go MemoryInstance.Read                the returned view expression
 //	c07.wait_wakeups        wasm/memory.go MemoryInstance.wait                the channel receives the parked guest listens to
 //	c07.wait_listens_done   (same)                                            "true" iff one of them is a Done() channel
+//	c10.release_clears      wasm/module_instance.go ensureResourcesClosed      per `X != nil` test: which field is set to nil in its body
 package main
 
 import (
@@ -165,6 +166,36 @@ func main() {
 		}
 		add("c07.wait_wakeups", strings.Join(rs, " ;; "))
 		add("c07.wait_listens_done", done)
+	}
+
+	{
+		// ensureResourcesClosed runs more than once for an instance closed by a done context (FailIfClosed calls it on
+		// every look at the closed flag): what makes the repetitions harmless is that every resource it releases is
+		// detached (set to nil) in the same branch that released it.
+		fd := fn(*repo, "internal/wasm/module_instance.go", "ensureResourcesClosed", "ModuleInstance")
+		var rs []string
+		ast.Inspect(fd.Body, func(n ast.Node) bool {
+			ifs, ok := n.(*ast.IfStmt)
+			if !ok {
+				return true
+			}
+			be, ok := ifs.Cond.(*ast.BinaryExpr)
+			if !ok || be.Op != token.NEQ || src(be.Y) != "nil" {
+				return true
+			}
+			cleared := "-"
+			for _, st := range ifs.Body.List {
+				if as, ok := st.(*ast.AssignStmt); ok && len(as.Lhs) == 1 && len(as.Rhs) == 1 && src(as.Rhs[0]) == "nil" {
+					cleared = src(as.Lhs[0])
+				}
+			}
+			rs = append(rs, src(ifs.Cond)+" => "+cleared)
+			return true
+		})
+		if len(rs) == 0 {
+			die("ensureResourcesClosed: no `X != nil` test")
+		}
+		add("c10.release_clears", strings.Join(rs, " ;; "))
 	}
 
 	var sb strings.Builder
